@@ -392,6 +392,14 @@ def setup(ctx: FunctionContext) -> Exec:
                 print(f"{setup_sig} trace:")
                 render_trace(setup_ex.context)
 
+        elif setup_ex.context.is_stuck():
+            # a path that stopped inside a sub-call (unsupported feature, symbolic offset, ...) has no error of its
+            # own, but it did not run to the end of setUp(): it is not a successful setUp path
+            warn_code(
+                INTERNAL_ERROR,
+                f"in {setup_sig}, execution got stuck: {setup_ex.context.get_stuck_reason()}",
+            )
+
         else:
             # note: ex.path.to_smt2() needs to be called at this point. The solver object is shared across paths,
             # and solver.to_smt2() will return a different query if it is called after a different path is explored.
